@@ -218,6 +218,7 @@ inductive WPhase
   | innerStart                  -- `service.StartAsync` done, in `service.AwaitRunning(serviceContext)`
   | startCleanup                -- AwaitRunning failed: in `StopAndAwaitTerminated(service)`
   | run                         -- wrapper Running, in `run`
+  | stopEntry                   -- `run` has returned: wrapper Stopping, `stop` has not yet read the inner state
   | stopWait                    -- wrapper Stopping, `stop` waits for the dependants
   | innerStop                   -- `StopAndAwaitTerminated(service)`
   | term | failed               -- wrapper Terminated / Failed
@@ -252,7 +253,7 @@ def WPhase.state : WPhase → SState
   | .idle => .new
   | .waitDeps _ | .innerStart | .startCleanup => .starting
   | .run => .running
-  | .stopWait | .innerStop => .stopping
+  | .stopEntry | .stopWait | .innerStop => .stopping
   | .term => .terminated
   | .failed => .failed
 
@@ -265,7 +266,7 @@ inductive REv
   | wStart (m : Mod) | wStop (m : Mod)
   | awaitOk (m d : Mod) | awaitFail (m d : Mod) | awaitCancelled (m : Mod)
   | depsDone (m : Mod) | innerUp (m : Mod) | innerStartFailed (m : Mod) | cleanupDone (m : Mod)
-  | runExit (m : Mod) | dependantsGone (m : Mod) | innerStopped (m : Mod)
+  | runExit (m : Mod) | stopLooks (m : Mod) | dependantsGone (m : Mod) | innerStopped (m : Mod)
   | iStartRet (m : Mod) (ok : Bool) | iRunRet (m : Mod) (ok : Bool) | iStopRet (m : Mod) (ok : Bool)
 deriving DecidableEq, Repr
 
@@ -286,7 +287,7 @@ def Sys.local (s : Sys) : REv → Option (Mod × ModSt)
     let x := s.st m
     match x.ph with
     | .idle => some (m, { x with ph := .term })
-    | .term | .failed | .stopWait | .innerStop => none
+    | .term | .failed | .stopEntry | .stopWait | .innerStop => none
     | _ => some (m, { x with wctx := true })
   | .awaitOk m d =>
     let x := s.st m
@@ -316,7 +317,7 @@ def Sys.local (s : Sys) : REv → Option (Mod × ModSt)
   | .innerUp m =>
     let x := s.st m
     if x.ph = .innerStart ∧ x.inner = .running then
-      some (m, { x with ph := if x.wctx then .stopWait else .run, wasRunning := !x.wctx || x.wasRunning })
+      some (m, { x with ph := if x.wctx then .stopEntry else .run, wasRunning := !x.wctx || x.wasRunning })
     else none
   | .innerStartFailed m =>
     let x := s.st m
@@ -327,8 +328,14 @@ def Sys.local (s : Sys) : REv → Option (Mod × ModSt)
     let x := s.st m
     if x.ph = .startCleanup ∧ x.inner.terminal then some (m, { x with ph := .failed }) else none
   | .runExit m =>
+    -- `run` returns (the wrapper was told to stop, or the inner service is terminal): the wrapper's
+    -- BasicService switches to Stopping; `stop` is entered only afterwards
     let x := s.st m
-    if x.ph = .run ∧ (x.wctx ∨ x.inner.terminal) then
+    if x.ph = .run ∧ (x.wctx ∨ x.inner.terminal) then some (m, { x with ph := .stopEntry }) else none
+  | .stopLooks m =>
+    -- `stop`: `if w.service.State() == services.Running { wait for dependants … } else { err = FailureCase() }`
+    let x := s.st m
+    if x.ph = .stopEntry then
       (if x.inner = .running then some (m, { x with ph := .stopWait })
        else some (m, { x with ph := if x.inner = .failed then .failed else .term }))
     else none
@@ -361,11 +368,21 @@ def Sys.step (s : Sys) (e : REv) : Sys :=
 
 def Sys.run (s : Sys) (evs : List REv) : Sys := evs.foldl Sys.step s
 
+/-- the run-time system `InitModuleServices` builds: one wrapper per module of `svcs` (the keys of
+servicesMap); `newModuleServiceWrapper` gives module `m` the start dependencies
+`DependenciesForModule(m)` and the stop dependencies `inverseDependenciesForModule(m)`, each filtered at
+call time by "has a service in the map" (`getDeps`). Everything starts New. -/
+def wrapperSys (g : Graph) (fuel : Nat) (svcs : List Mod) : Sys :=
+  { mods := svcs,
+    startDeps := fun m => ((dependenciesFor g fuel m).getD []).filter svcs.contains,
+    stopDeps := fun m => ((inverseDeps g fuel m).getD []).filter svcs.contains,
+    st := fun _ => {} }
+
 /-- a schedule that finishes module `m` once every module depending on it has finished: ask the wrapper
 to stop, let every wait return, let the three functions of the inner service return nil. (Steps that
 are not enabled in the state at hand are no-ops, so one fixed list serves every state.) -/
 def modSched (m : Mod) : List REv :=
-  [.wStop m, .awaitCancelled m, .innerStartFailed m, .runExit m, .dependantsGone m,
+  [.wStop m, .awaitCancelled m, .innerStartFailed m, .runExit m, .stopLooks m, .dependantsGone m,
    .iStartRet m true, .iRunRet m true, .iStopRet m true, .cleanupDone m, .innerStopped m]
 
 /-- a schedule that finishes the whole system from ANY state: `|mods|` rounds over all modules (each
